@@ -138,11 +138,6 @@ class AsyncStateMachine:
             else:
                 self.reader = self.tlsConnection.readAsync(16384)
                 self._doReadOp()
-                # records already read ahead from the socket won't cause
-                # another read event, so deliver them now
-                while self._read_ahead_pending():
-                    self.reader = self.tlsConnection.readAsync(16384)
-                    self._doReadOp()
         except:
             self._clear()
             raise
@@ -191,11 +186,17 @@ class AsyncStateMachine:
 
     def _doReadOp(self):
         self.result = next(self.reader)
-        if not self.result in (0,1):
+        while not self.result in (0,1):
             readBuffer = self.result
             self.reader = None
             self.result = None
             self.outReadEvent(readBuffer)
+            # records already read ahead from the socket won't cause
+            # another read event, so deliver them now
+            if not self._read_ahead_pending():
+                break
+            self.reader = self.tlsConnection.readAsync(16384)
+            self.result = next(self.reader)
 
     def _doWriteOp(self):
         try:
